@@ -94,13 +94,23 @@ def oracle(run: runner.Run, oc: Outcome) -> None:
                 relisted += 1
             first_view = snaps.get((uid, first.rv))
             listed_first = first.etype is None
+            name_of = next((c.name for s in ss for c in s.calls if c.name), None)
+
+            def vanished_between(seq_a: float, seq_b: float) -> bool:
+                # a PATCH of this process for this object answered 404: what it carried (records) never landed, and
+                # the events still queued for the vanished object are processed without it (by design)
+                return any(e[2] == 'rsp' and e[4] == 404 and seq_a <= e[0] <= seq_b
+                           and (rq := by_rid.get(e[3])) is not None and rq.method == 'PATCH' and rq.session.actor == actor
+                           and rq.attrs.get('name') == name_of for e in run.sim.trace)
+
             for hid in resume_ids + sorted(sub_specs):
                 h = hspecs.get(hid) or sub_specs[hid]
                 calls = [c for s in ss for c in s.calls if c.hid == hid]
                 finals = [c for c in calls if changes.final_outcome(c, h)]
                 is_parent = bool(h.get('subs'))   # re-entered for its children by design: the children are judged
                 if hid in sub_specs:
-                    if len(finals) > 1 and not any(s_.how != 'returned' for s_ in ss):
+                    if len(finals) > 1 and not any(s_.how != 'returned' for s_ in ss) \
+                            and not vanished_between(finals[0].seq0, finals[1].seq0):
                         # told apart: its record went with the leftovers of a superseded cause (kopf purges ALL records
                         # then and writes back only the top-level ones that it re-purposes) -- i.e. the write that removed
                         # it also removed the record of some other top-level handler
@@ -167,6 +177,7 @@ def oracle(run: runner.Run, oc: Outcome) -> None:
                             phase_over = s_
                             continue
                     if phase_over is not None and any(c.hid == hid for c in s_.calls) \
+                            and not vanished_between(ss[0].seq0, s_.seq0) \
                             and not common.late_echoes(run, 0.9 * float(spec['settings'].get('consistency_timeout', 5.0))):
                         oc.add('C14/not-eligible', 'after-the-resuming-phase',
                                f"resume handler {hid} ran for {uid}@{s_.rv} in process {actor} at t={s_.t0:.3f} although the "
